@@ -44,7 +44,7 @@ ASSUMPTIONS = [
 BUDGET = {"quick": 50, "thorough": 450}
 NCASES = {"quick": 3000, "thorough": 60000}
 FLOORS = {"quick": {"case_held": 400, "nontrivial": 300}, "thorough": {"case_held": 8000, "nontrivial": 6000}}
-VARIANTS = ["whole", "whole", "component", "tuple", "auto", "second", "cd", "coef-direction", "mixed-split", "tuple-mixedarg", "tuple-auto"]
+VARIANTS = ["whole", "whole", "component", "tuple", "auto", "second", "cd", "coef-direction", "mixed-split", "tuple-mixedarg", "tuple-auto", "two-derivatives"]
 COVER_FLOORS = {"quick": {"variants_held": ["whole", "component", "tuple", "auto", "second", "coef-direction", "tuple-mixedarg", "tuple-auto"]}, "thorough": {"variants_held": ["whole", "component", "tuple", "auto", "second", "coef-direction", "cd", "mixed-split", "tuple-mixedarg", "tuple-auto"]}}
 CELLS = [("interval", 1), ("triangle", 2), ("triangle", 2), ("triangle", 3), ("tetrahedron", 3)]
 
@@ -83,6 +83,52 @@ def arguments_of(e):
     return out
 
 
+def two_derivatives(ctx, rng, cell, gdim, cplx, itype, U, G):
+    """Several derivative nodes in ONE expansion: same coefficient and direction, different (or no)
+    coefficient_derivatives, different integrands.  S evaluates each CoefficientDerivative node by definition."""
+    from ..passcheck import check_pass
+
+    names = sorted(U.spaces)
+    try:
+        wname = rng.choice(names)
+        w = U.coef(wname, 0)
+        gnames = [n for n in names if U.spaces[n].ufl_element().pullback.is_identity and U.spaces[n].ufl_element().embedded_superdegree > 0]
+        g = U.coef(rng.choice(gnames), 1)
+        if g == w:
+            g = U.coef(rng.choice(gnames), 2)
+        G.extra = [w, g]
+        G.extra_prob = 0.6
+        G.deriv = 0  # (the gradient of a coefficient with a user-supplied derivative is refused by UFL)
+        F1 = G.expr((), rng.choice([2, 3]))
+        F2 = F1 if rng.random() < 0.5 else G.expr((), 2)
+        nxt = max(max_arg_number(F1), max_arg_number(F2)) + 1
+        v = U.arg(wname, nxt) if rng.random() < 0.7 else U.coef(wname, 3)
+        Gd = Gen(U, rng, cplx=cplx, deriv=0, cond=False, geom=False, math=False)
+        dg = Gd.expr(tuple(g.ufl_shape) + tuple(w.ufl_shape), 1)
+        dg2 = Gd.expr(tuple(g.ufl_shape) + tuple(w.ufl_shape), 1)
+        kinds = rng.choice([("cd", "none"), ("none", "cd"), ("cd", "cd2"), ("cd", "none", "cd2")])
+        terms = []
+        for k, kind in enumerate(kinds):
+            F = F1 if k % 2 == 0 else F2
+            if kind == "none":
+                terms.append(ufl.derivative(F, w, v))
+            else:
+                terms.append(ufl.derivative(F, w, v, {g: dg if kind == "cd" else dg2}))
+        e = terms[0]
+        for k, t in enumerate(terms[1:]):
+            e = e - (k + 2) * t
+    except Exception as ex:
+        ctx.count("build_rejected")
+        ctx.covered("build_rejected_with", type(ex).__name__ + ":two-derivatives")
+        return
+    worlds = oracle.worlds_for(rng, cell, gdim, itype, cplx, n=3)
+    verdict, out = check_pass(ctx, "C02", "expand_derivatives", e, expand_derivatives, worlds, localise=False, key_override="two-derivatives/" + "+".join(kinds))
+    if verdict == "held":
+        ctx.covered("variants_held", "two-derivatives")
+        ctx.count("nontrivial")
+        ctx.add_distinct((skeleton(F1, 3), "two-derivatives", kinds, cell, gdim, itype, cplx))
+
+
 def case(ctx, i, rng):
     cell, gdim = rng.choice(CELLS)
     cplx = rng.random() < 0.25
@@ -90,6 +136,8 @@ def case(ctx, i, rng):
     U = Universe(rng, cell, gdim, itype, cplx)
     variant = VARIANTS[i % len(VARIANTS)] if rng.random() < 0.7 else rng.choice(VARIANTS)
     G = Gen(U, rng, cplx=cplx, deriv=rng.choice([0, 1, 1, 2]), cond=rng.random() < 0.3, math=rng.random() < 0.8, geom=rng.random() < 0.4)
+    if variant == "two-derivatives":
+        return two_derivatives(ctx, rng, cell, gdim, cplx, itype, U, G)
     names = sorted(U.spaces)
     frames = []
     try:
